@@ -5,7 +5,9 @@ import (
 	"crypto/sha512"
 	"crypto/x509"
 	"encoding/binary"
+	"errors"
 	"fmt"
+	"math/big"
 	"os"
 
 	"github.com/google/go-eventlog/extract"
@@ -121,7 +123,26 @@ func runC18(r *mc.Run) {
 	}
 	r.Set("event_log", map[string]any{"events": nev, "measured_rtmrs": measured})
 	w := world.Honest("T")
+	// collateral that matches the sample quote's TD body, so that the verification gate can also be
+	// exercised with collateral and revocation checking switched on
+	tee := cos[48 : 48+16]
+	w.TcbInfo = world.DefaultTcbInfo(w.Plat, tee)
+	w.TcbInfo.TdxModule = world.TdxModule{Mrsigner: hexs(cos[48+64 : 48+112]), Attributes: hexs(cos[48+112 : 48+120]), AttributesMask: "FFFFFFFFFFFFFFFF"}
+	if tee[1] != 0 {
+		w.TcbInfo.TdxModuleIdentities = []world.ModuleIdentity{{ID: fmt.Sprintf("TDX_%02x", tee[1]), Mrsigner: hexs(cos[48+64 : 48+112]), Attributes: "0000000000000000", AttributesMask: "FFFFFFFFFFFFFFFF",
+			TcbLevels: []world.Level{{Tcb: world.Tcb{Isvsvn: world.IntP(int(tee[0]))}, TcbDate: "2029-01-01T00:00:00Z", TcbStatus: "UpToDate"}}}}
+	}
+	w.Finish()
 	T, F := w.PKI, world.CachedPKI("F")
+	withGetter := func(o *rtmr.ParseTdxCcelOpts, level int, mod func(g *world.Getter)) {
+		g := w.Getter.Clone()
+		if mod != nil {
+			mod(g)
+		}
+		o.Verification.Getter = g
+		o.Verification.GetCollateral, o.Verification.CheckRevocations = level >= 1, level >= 2
+	}
+	down := world.Response{Err: errors.New("503 service unavailable")}
 	att := world.NewKey("att")
 	baseParts := func() *world.QuoteParts {
 		p := w.Parts.Clone()
@@ -153,8 +174,50 @@ func runC18(r *mc.Run) {
 		}},
 		{"revocation-without-collateral", func(p *world.QuoteParts, o *rtmr.ParseTdxCcelOpts) { o.Verification.CheckRevocations = true }},
 		{"zeroed-signature", func(p *world.QuoteParts, o *rtmr.ParseTdxCcelOpts) { p.Sig = make([]byte, 64) }},
+		// faults that only exist with collateral / revocation checking on
+		{"L1:tcbinfo-endpoint-down", func(p *world.QuoteParts, o *rtmr.ParseTdxCcelOpts) {
+			withGetter(o, 1, func(g *world.Getter) { g.Responses[world.URLTcbInfo(hexs(w.Plat.FMSPC))] = down })
+		}},
+		{"L1:qeidentity-endpoint-down", func(p *world.QuoteParts, o *rtmr.ParseTdxCcelOpts) {
+			withGetter(o, 1, func(g *world.Getter) { g.Responses[world.URLQeIdentity] = down })
+		}},
+		{"L2:pck-crl-endpoint-down", func(p *world.QuoteParts, o *rtmr.ParseTdxCcelOpts) {
+			withGetter(o, 2, func(g *world.Getter) { g.Responses[world.URLPckCrl("platform")] = down })
+		}},
+		{"L2:root-crl-endpoint-down", func(p *world.QuoteParts, o *rtmr.ParseTdxCcelOpts) {
+			withGetter(o, 2, func(g *world.Getter) { g.Responses[world.RootCRLURL] = down })
+		}},
+		{"L2:pck-crl-garbage", func(p *world.QuoteParts, o *rtmr.ParseTdxCcelOpts) {
+			withGetter(o, 2, func(g *world.Getter) {
+				g.Responses[world.URLPckCrl("platform")] = world.Response{Header: w.PckHdr, Body: []byte("garbage")}
+			})
+		}},
+		{"L2:leaf-revoked", func(p *world.QuoteParts, o *rtmr.ParseTdxCcelOpts) {
+			withGetter(o, 2, func(g *world.Getter) {
+				g.Responses[world.URLPckCrl("platform")] = world.Response{Header: w.PckHdr, Body: world.MakeCRL(world.CRLSpec{Issuer: T.Inter, Signer: T.InterKey, Revoked: []*big.Int{T.Leaf.SerialNumber}})}
+			})
+		}},
+		{"L1:tcb-revoked", func(p *world.QuoteParts, o *rtmr.ParseTdxCcelOpts) {
+			withGetter(o, 1, func(g *world.Getter) {
+				ti := w.TcbInfo
+				ti.TcbLevels = []world.Level{world.PlatformLevel(w.Plat, tee, "Revoked")}
+				g.Responses[world.URLTcbInfo(hexs(w.Plat.FMSPC))] = world.Response{Header: w.TcbHdr, Body: world.SignedBody("tcbInfo", world.MustJSON(ti), T.TcbKey)}
+			})
+		}},
+		{"L2:crl-outage+body-signed-by-foreign-key", func(p *world.QuoteParts, o *rtmr.ParseTdxCcelOpts) {
+			p.SignBody(world.NewKey("c18-foreign"))
+			withGetter(o, 2, func(g *world.Getter) { g.Responses[world.RootCRLURL] = down })
+		}},
 	}
+	// controls: the gate passes with collateral / revocation checking on (a state must come back)
+	vcontrols := []c18fault{
+		{"L1:ok", func(p *world.QuoteParts, o *rtmr.ParseTdxCcelOpts) { withGetter(o, 1, nil) }},
+		{"L2:ok", func(p *world.QuoteParts, o *rtmr.ParseTdxCcelOpts) { withGetter(o, 2, nil) }},
+	}
+	nControlsFrom := len(vfaults)
+	vfaults = append(vfaults, vcontrols...)
 	noResign["body-altered-after-signing"], noResign["body-signed-by-foreign-key"], noResign["zeroed-signature"] = true, true, true
+	_ = noResign
 	flip := func(b []byte, i int) []byte { c := append([]byte(nil), b...); c[i] ^= 0x20; return c }
 	pfaults := []c18fault{
 		{"ok", nil},
@@ -257,7 +320,7 @@ func runC18(r *mc.Run) {
 			st, err = rtmr.ParseCcelWithTdQuote(ccelBytes, tableBytes, q, o)
 		}()
 		// reference gates
-		gateV := c.v == 0
+		gateV := c.v == 0 || c.v >= nControlsFrom
 		pol := polOf(o.Validation)
 		rp, _ := ref.ParseQuote(raw)
 		gateP := pol.Judge(rp) == ref.MustAccept
